@@ -224,6 +224,14 @@ def configs(tier):
                     if sg <= gran:
                         add(dict(aw=aw, dw=dw, gran=gran, feat=dfeat,
                                  subs=[dense(w1, pol, dfeat), dict(kind="sparse", aw=max(1, min(2, aw + gb - 1)), sgran=sg, feat=sub_feats("outs", dfeat))]))
+    # many windows (4-6) of mixed sizes, some explicit and out of order
+    for gi, (aw, dw, gran) in enumerate([(5, 8, 8), (4, 32, 8), (4, 16, 16)]):
+        gb = log2(dw // gran)
+        for fi, dfeat in enumerate([(), ALL, ("err", "bte")]):
+            subs = [dense(k % 2, policies[(k + fi) % len(policies)], dfeat, name=(None if k % 3 else f"w{k}")) for k in range(4 + gi)]
+            add(dict(aw=aw, dw=dw, gran=gran, feat=dfeat, subs=subs))
+            subs2 = [dense(0, policies[(k + fi + 1) % len(policies)], dfeat, addr=((5 - k) << max(1, gb))) for k in range(6)]
+            add(dict(aw=aw, dw=dw, gran=gran, feat=dfeat, subs=subs2))
     # the same configurations with the decoder queried and elaborated between the add() calls
     extra = [dict(c, use_between=True) for c in out if len(c["subs"]) >= 2][::(6 if quick else 2)]
     return out + extra
